@@ -19,6 +19,34 @@ CHECKS = {
  'C06': cache('TLC checks in the model that every call ends with its own outcome under cancellation, failures and loop shutdown; executions '
               'of the real code with cancels/time-outs/failures at grid instants are validated against C06_ForeignOutcome_* / C06_WrongValue.'),
 }
+def comp(spec, text, technique=None):
+    return {'engine': 'tlc+runtime', 'design_ref': 'DESIGN.md §5', 'text': text, 'note': TRUST,
+            'technique': technique or ('executions of the real code in virtual time under the deterministic runtime, '
+                          'validated by TLC against the TLA+ contract monitor ' + spec)}
+
+CHECKS.update({
+ 'C02': comp('LockContract.tla', 'Thousands of line-level (partly opcode-level) interleavings of 2..4 controlled threads over 1..2 FileLock objects '
+             'on real descriptors with the real flock(2), all acquire forms and modes, plus free-running OS processes writing Enter/Exit '
+             'inside the section; every trace is validated by TLC against C02_Exclusive / C02_HolderIsAcquirer.'),
+ 'C03': comp('BufferContract.tla', 'Timed programs of submissions of every kind with producer delays/failures, failing invocations, waits and foreign '
+             'submitting threads, run in virtual time; TLC validates C03_OnlySubmitted, C03_KeptOnFailure, C03_AllDelivered, C03_ExactlyOnce.'),
+ 'C04': comp('BatcherContract.tla', 'Timed programs of calls with every per-key batch-function behaviour and result order; TLC validates that each call is '
+             'answered with the first outcome yielded for its key in the batch that carried its request (C04_OwnOutcome, NoCrossKey, BatchFailure, Answered).'),
+ 'C07': comp('BufferContract.tla', 'wait(cancel) calls and loop shutdown at every grid instant, foreign submit-then-wait_from_anywhere under line-level schedules; '
+             'TLC validates C07_Barrier, C07_Returns, C07_ShutdownTerminates.'),
+ 'C08': comp('BufferContract.tla', 'Exhaustive arrival-time grids {0, tau-1, tau, tau+1, 2tau}^n plus random immediate programs, durations and failures; TLC validates '
+             'C08_Serial, C08_NonEmpty, C08_Quiet, C08_Together in exact virtual time; exact ties are not judged.'),
+ 'C09': comp('BatcherContract.tla', 'The C04 programs with cancels / time-outs of any subset of callers at grid instants (queued, running before the result, after it), '
+             'shared and distinct keys; the same clauses for every non-cancelled caller.'),
+ 'C10': comp('BatcherContract.tla', 'Exhaustive arrival grids and random programs with max_batch_size mutated while running; TLC validates C10_Size, C10_Concurrency, '
+             'C10_Fifo, C10_Share, C10_Deadline against the expected request FIFO kept by the monitor.'),
+ 'C11': comp('BatcherContract.tla', 'Exhaustive same-key gap grids around batch completion and the retention window plus random programs; the monitor keeps the expected '
+             'request structure (join vs. new request) and TLC validates C11_NoDuplicateWork and C11_WrongRequest.'),
+ 'C12': comp('LockRef.tla', 'TLC enumerates, from the executable reference model LockRef.tla, a cover of every (reference state, operation) pair reachable within 7 '
+             'operations (4 configurations, 2 threads x 2 objects, all argument forms, single/double OSError injection) plus simulated length-7 behaviours; each '
+             'sequence is replayed on the real FileLock and every step (result, is_locked, descriptor count, in-process lock owner, duration) compared by TLC with Apply().',
+             'operation sequences generated by TLC from the TLA+ reference model LockRef.tla are replayed into the real FileLock; recorded steps are validated by TLC against the same model'),
+})
 PENDING_REASON = 'check not built yet in this session (planned: see DESIGN.md §5); not a claim that the technique cannot apply'
 PENDING = {('C%02d' % i): PENDING_REASON for i in range(1, 21)}
 ENGINES = [
